@@ -40,7 +40,8 @@ def nstartOf (tr : String) : Nat := if tr.startsWith "udp@" then (tr.drop 4).toS
 
 def compileProg (udp : Bool) (limit epLimit nstart : Nat) (prog : String) : List Act :=
   (prog.splitOn "+").foldl (fun acc st =>
-    if st == "r" || st == "" || st == "a" then acc
+    -- `j`: the handler passes the request message on to another owner (Hijack) — nothing the dispatch model sees
+    if st == "r" || st == "" || st == "a" || st == "j" then acc
     else if st == "p" then acc ++ pingProg udp
     else
       let k := (st.drop 1).toString.toNat?.getD 0
@@ -51,6 +52,14 @@ def compileProg (udp : Bool) (limit epLimit nstart : Nat) (prog : String) : List
       else if st.startsWith "h" then acc ++ doProgN udp (100 + k) epLimit limit nstart k
       else if st.startsWith "o" then acc ++ observeProgN udp 1 epLimit limit nstart k
       else acc) []
+
+/-- does a handler with this program block?  (`r` returns, `a` answers and returns, `j` passes the message on and returns) -/
+def progBlocks (prog : String) : Bool :=
+  (prog.splitOn "+").any fun st => !(st == "r" || st == "" || st == "a" || st == "j")
+
+/-- ops before which the harness lets one virtual millisecond pass (first part of a compound op only) -/
+def ticks (udp : Bool) (f : List String) : Bool :=
+  ["arrive", "arrivem", "mon", "dup", "call", "burst", "watch", "note", "flood"].contains (f.headD "") || (udp && f.headD "" == "empty")
 
 /-- what the current loop is blocked in, if it is -/
 def stuckCause (s : State) : Option String :=
@@ -211,6 +220,13 @@ def applyOp (udp : Bool) (limit epLimit nstart : Nat) (sim : Sim) (f : List Stri
   | ["arrivem", m, prog, _, _] => do
     let m ← m.toNat?
     some ({ sim with s := { s with inbox := s.inbox ++ [⟨m, .req (compileProg udp limit epLimit nstart prog)⟩] } }, [])
+  | ["flood", m0, n, _] => do
+    -- a busy peer: n distinct requests back to back, every handler answers and returns
+    let m0 ← m0.toNat?
+    let n ← n.toNat?
+    some ({ sim with s := { s with inbox := s.inbox ++ (List.range n).map (fun i => ⟨m0 + i, .req []⟩) } }, [])
+  -- the new owner of a request message that its handler passed on gives it back to the pool: no message, no event
+  | ["rel", _] => some (sim, [])
   | ["dup", m] => do
     -- a retransmission of request m: accepted, taken by a loop, answered from the reply cache (after waiting for the original's
     -- handler, if that is still running) — the handler does not run again, nothing is logged
@@ -281,7 +297,7 @@ def model (line : String) : String :=
         | some (sim, pre) =>
           let f := normF (sub.splitOn ":")
           -- the harness lets one millisecond of virtual time pass before every arrival / outside call (first part of a compound op only)
-          let sim := if idx == 0 && (["arrive", "arrivem", "mon", "dup", "call", "burst", "watch", "note"].contains (f.headD "") || (udp && f.headD "" == "empty")) then sleepFor sim 1 else sim
+          let sim := if idx == 0 && ticks udp f then sleepFor sim 1 else sim
           match applyOp udp limit epLimit nstart sim f with
           | some (sim1, p) =>
             (match f with
@@ -312,7 +328,7 @@ def classify (line : String) : String :=
     let sim := ops.foldl (fun (sim : Sim) op =>
       settle (((op.splitOn "&").zipIdx).foldl (fun (sim : Sim) (sub, idx) =>
         let f := normF (sub.splitOn ":")
-        let sim := if idx == 0 && (["arrive", "arrivem", "mon", "dup", "call", "burst", "watch", "note"].contains (f.headD "") || (udp && f.headD "" == "empty")) then sleepFor sim 1 else sim
+        let sim := if idx == 0 && ticks udp f then sleepFor sim 1 else sim
         match applyOp udp limit epLimit nstart sim f with
         | some (sim1, _) => (match f with
             | ["sleep", ms] => sleepFor sim1 (ms.toNat?.getD 0)
@@ -361,11 +377,13 @@ def history (udp : Bool) (ops : List String) (segs : List String) : Option (List
      match f with
      | ["arrive", m, prog] =>
       let m ← m.toNat?
-      hist := hist ++ [.arrive m (prog != "r")]
+      hist := hist ++ [.arrive m (progBlocks prog)]
      | ["mon", m, prog] =>
-       hist := hist ++ [.arrive (← m.toNat?) (prog != "r")]
+       hist := hist ++ [.arrive (← m.toNat?) (progBlocks prog)]
      | ["arrivem", m, prog, _, _] =>
-       hist := hist ++ [.arrive (← m.toNat?) (prog != "r" && prog != "a")]
+       hist := hist ++ [.arrive (← m.toNat?) (progBlocks prog)]
+     | ["flood", m0, n, _] =>
+       hist := hist ++ (List.range (← n.toNat?)).map (fun i => .arrive ((m0.toNat?.getD 0) + i) false)
      | ["resp2", k] => if !early then hist := hist ++ [.answered (← k.toNat?), .arrive (7000 + (← k.toNat?)) false]
      | ["burst", ids] =>
        for m in (ids.splitOn "-").filterMap (·.toNat?) do
